@@ -101,6 +101,13 @@ def cases(rng):
             for i in ptr_pos:
                 c = call_case(params, list(params), 'noaddr', noaddr=i)
                 out.append((c[0], c[1], c[2] + ' with the & missing on argument %d' % i))
+    # pointers to sized arrays: the length is part of the type
+    for (la, lb) in ((3, 5), (5, 3), (1, 2)):
+        out.append(('fn g(p: &[%d]i32)\n{\n}\n\nfn f()\n{\n\tvar m: [%d]i32 = [%s];\n\tg(&m);\n}\n' % (lb, la, ', '.join('1' for _ in range(la))),
+                    'reject:512|513', 'address of a [%d]i32 passed for a parameter of type &[%d]i32' % (la, lb)))
+        out.append(('fn f()\n{\n\tvar m: [%d]i32 = [%s];\n\tvar q: &[%d]i32 = &m;\n}\n' % (la, ', '.join('1' for _ in range(la)), lb),
+                    'reject:504', 'address of a [%d]i32 stored in a variable of type &[%d]i32' % (la, lb)))
+    out.append(('fn g(p: &[3]i32)\n{\n}\n\nfn f()\n{\n\tvar m: [3]i32 = [1, 1, 1];\n\tg(&m);\n}\n', 'accept', 'address of a [3]i32 passed for &[3]i32'))
     rng.shuffle(out)
     return out
 
